@@ -262,12 +262,34 @@ Proof.
       * apply wf_routes_filter. exact Hw.
 Qed.
 
+(* every record of a cache that only client handshakes fill is a client-side record, so
+   storeClientSession always stores (its two other branches need a record that is not) *)
+Definition acs (r : rstate) : Prop := forall x, In x (r_sessions r) -> is_client_side (fst x) = true.
+
+Lemma lookup_In c now id e : lookup c now id = Some e -> In e (c_sessions c).
+Proof.
+  unfold lookup. destruct (find_sess id (c_sessions c)) as [e0|] eqn:F; [|discriminate].
+  destruct (is_expired e0 now); [discriminate|]. intro E. inversion E; subst.
+  unfold find_sess in F. apply find_some in F. tauto.
+Qed.
+Lemma scs_client_only c now tag addr fo :
+  (forall e, In e (c_sessions c) -> is_client_side e = true) ->
+  store_client_session c now tag addr fo = map_cmds (store_new c (client_entry now tag addr fo)) tag addr fo.
+Proof.
+  intro H. unfold store_client_session. destruct (lookup c now (f_sid fo)) as [ex|] eqn:L; [|reflexivity].
+  rewrite (H ex (lookup_In _ _ _ _ L)). reflexivity.
+Qed.
+Lemma acs_image r : acs r -> forall e, In e (c_sessions (image r)) -> is_client_side e = true.
+Proof.
+  intros A e H. cbn [image c_sessions] in H. apply in_map_iff in H as (x & <- & Hx). apply A. exact Hx.
+Qed.
+
 Lemma sim_store_client_session r now tag addr fo :
-  no_comma tag -> no_comma addr -> wf_routes r ->
+  no_comma tag -> no_comma addr -> wf_routes r -> acs r ->
   store_client_session (image r) now tag addr fo = image (ref_establish r now tag addr fo)
   /\ wf_routes (ref_establish r now tag addr fo).
 Proof.
-  intros Ht Ha Hw. unfold store_client_session, ref_establish.
+  intros Ht Ha Hw Ac. rewrite (scs_client_only _ _ _ _ _ (acs_image r Ac)). unfold map_cmds, ref_establish.
   rewrite (sim_store_new r (client_entry now tag addr fo) (cmds_of (f_valid fo))).
   change (e_id (client_entry now tag addr fo)) with (f_sid fo).
   apply sim_fold_cmds; auto.
@@ -285,22 +307,22 @@ Proof.
 Qed.
 
 Lemma sim_full r now tag addr p :
-  no_comma tag -> no_comma addr -> wf_routes r ->
+  no_comma tag -> no_comma addr -> wf_routes r -> acs r ->
   fst (full_auth (image r) now tag addr p) = image (ref_full r now tag addr p)
   /\ wf_routes (ref_full r now tag addr p).
 Proof.
-  intros Ht Ha Hw. unfold full_auth, ref_full. destruct (on_full p) as [fo|]; [|auto].
+  intros Ht Ha Hw Ac. unfold full_auth, ref_full. destruct (on_full p) as [fo|]; [|auto].
   destruct (f_sid fo) as [|b s] eqn:Es; [auto|].
   destruct addr as [|b' a']; [auto|]. cbn [fst].
   apply sim_store_client_session; assumption.
 Qed.
 
 Lemma sim_handshake r now tag addr cmd p :
-  no_comma tag -> no_comma addr -> (match cmd with Some cm => no_comma cm | None => True end) -> wf_routes r ->
+  no_comma tag -> no_comma addr -> (match cmd with Some cm => no_comma cm | None => True end) -> wf_routes r -> acs r ->
   fst (client_handshake (image r) now [] tag addr cmd p) = image (ref_handshake r now tag addr cmd p)
   /\ wf_routes (ref_handshake r now tag addr cmd p).
 Proof.
-  intros Ht Ha Hc Hw. unfold client_handshake, ref_handshake.
+  intros Ht Ha Hc Hw Ac. unfold client_handshake, ref_handshake.
   destruct addr as [|b a']; [apply sim_full; assumption|].
   destruct cmd as [cm|]; [|apply sim_full; assumption].
   rewrite sim_lookup_by_command; [|exact Hw|repeat split; assumption].
@@ -318,12 +340,12 @@ Proof.
 Qed.
 
 Lemma sim_step r now e :
-  wf_event e -> wf_routes r ->
+  wf_event e -> wf_routes r -> acs r ->
   step (image r, now) e = (image (fst (ref_step (r, now) e)), snd (ref_step (r, now) e))
   /\ wf_routes (fst (ref_step (r, now) e)).
 Proof.
-  intros He Hw. destruct e as [t a cmd p|dt|id| |id]; cbn [step ref_step fst snd].
-  - destruct He as (Ht & Ha & Hc). destruct (sim_handshake r now t a cmd p Ht Ha Hc Hw) as [E W].
+  intros He Hw Ac. destruct e as [t a cmd p|dt|id| |id]; cbn [step ref_step fst snd].
+  - destruct He as (Ht & Ha & Hc). destruct (sim_handshake r now t a cmd p Ht Ha Hc Hw Ac) as [E W].
     rewrite E. auto.
   - auto.
   - rewrite sim_invalidate. split; [reflexivity|apply wf_routes_drop; exact Hw].
@@ -466,15 +488,54 @@ Qed.
 (* ------------------------------------------------------------------------ *)
 (* 5. refinement over all histories                                          *)
 (* ------------------------------------------------------------------------ *)
+Lemma is_client_side_renew e now : is_client_side (renew_lease e now) = is_client_side e.
+Proof. unfold renew_lease. destruct (e_lease e =? 0); reflexivity. Qed.
+Lemma acs_incl r r' : incl (r_sessions r') (r_sessions r) -> acs r -> acs r'.
+Proof. intros I A x H. apply A, I, H. Qed.
+Lemma establish_sessions_acs r now tag addr fo : acs r -> acs (ref_establish r now tag addr fo).
+Proof.
+  intros A x H. unfold ref_establish in H.
+  assert (G : forall l r0, r_sessions (fold_left (fun r' cmd => let cmd' := trim_space cmd in
+                 match cmd' with
+                 | [] => r'
+                 | _ => {| r_sessions := r_sessions r'; r_routes := route_set (tag, addr, cmd') (f_sid fo) (r_routes r') |}
+                 end) l r0) = r_sessions r0).
+  { induction l as [|c l IH]; intro r0; simpl; [reflexivity|]. rewrite IH. destruct (trim_space c); reflexivity. }
+  rewrite G in H. cbn [r_sessions] in H. destruct H as [<-|H]; [reflexivity|].
+  apply A. unfold rdel in H. apply filter_In in H. tauto.
+Qed.
+Lemma acs_step r now e : acs r -> acs (fst (ref_step (r, now) e)).
+Proof.
+  intro A. destruct e as [t a cmd p|dt|id| |id]; cbn [ref_step fst].
+  - assert (Hfull : acs (ref_full r now t a p)).
+    { unfold ref_full. destruct (on_full p) as [fo|]; [|exact A]. destruct (f_sid fo); [exact A|].
+      destruct a; [exact A|]. apply establish_sessions_acs. exact A. }
+    unfold ref_handshake. destruct a as [|b a']; [exact Hfull|]. destruct cmd as [cm|]; [|exact Hfull].
+    match goal with |- context [ref_lookup ?u ?v ?w] => destruct (ref_lookup u v w) as [x|] eqn:EL end; [|exact Hfull].
+    destruct (has_usable_key (fst x)); [|exact Hfull].
+    apply ref_lookup_In in EL as (Hin & _ & _).
+    assert (Hren : acs (ref_renew r now x)).
+    { intros y [<-|H]; [cbn [fst]; rewrite is_client_side_renew; apply A; exact Hin|].
+      apply A. unfold rdel in H. apply filter_In in H. tauto. }
+    assert (Hdrop : acs (ref_drop r (e_id (fst x)))).
+    { unfold ref_drop. destruct (rfind _ _); [|exact A]. apply (acs_incl r); [cbn [r_sessions]; apply incl_filter|exact A]. }
+    destruct (on_resume p (e_id (fst x))); assumption.
+  - exact A.
+  - unfold ref_drop. destruct (rfind _ _); [|exact A]. apply (acs_incl r); [cbn [r_sessions]; apply incl_filter|exact A].
+  - apply (acs_incl r); [cbn [ref_sweep r_sessions]; apply incl_filter|exact A].
+  - unfold ref_lne. destruct (rfind _ _) as [x|]; [|exact A]. destruct (is_expired (fst x) now); [|exact A].
+    apply (acs_incl r); [cbn [r_sessions]; apply incl_filter|exact A].
+Qed.
+
 Lemma refine_from h : forall r now,
-  wf_routes r -> sound r -> good_from (image r, now) h ->
+  wf_routes r -> sound r -> acs r -> good_from (image r, now) h ->
   run_from (image r, now) h = (image (fst (ref_run_from (r, now) h)), snd (ref_run_from (r, now) h))
   /\ wf_routes (fst (ref_run_from (r, now) h)) /\ sound (fst (ref_run_from (r, now) h)).
 Proof.
-  induction h as [|e h IH]; intros r now Hw S G.
+  induction h as [|e h IH]; intros r now Hw S Ac G.
   - cbn. auto.
-  - destruct G as (He & G). destruct (sim_step r now e He Hw) as [E W].
-    pose proof (sound_step r now e S) as S'.
+  - destruct G as (He & G). destruct (sim_step r now e He Hw Ac) as [E W].
+    pose proof (sound_step r now e S) as S'. pose proof (acs_step r now e Ac) as Ac'.
     change (run_from (image r, now) (e :: h)) with (run_from (step (image r, now) e) h).
     change (ref_run_from (r, now) (e :: h)) with (ref_run_from (ref_step (r, now) e) h).
     rewrite E in *.
@@ -494,6 +555,7 @@ Proof.
   destruct (refine_from h rempty 0) as (E & W & S); auto.
   - constructor.
   - intros tr id x [].
+  - intros x [].
   - rewrite E. destruct (ref_run_from (rempty, 0) h) as [r now']. cbn [fst snd]. auto.
 Qed.
 
@@ -725,8 +787,12 @@ Proof.
   assert (Hfull : cache_ok (fst (full_auth c now t a p))).
   { unfold full_auth. destruct (on_full p) as [fo|]; [|exact H].
     destruct (f_sid fo); [exact H|]. destruct a; [exact H|]. cbn [fst].
-    unfold store_client_session. apply cache_ok_fold.
-    unfold cache_ok, store_new, store. cbn [c_cmdmap]. apply NoDup_keys_filter. exact H. }
+    assert (Hn : cache_ok (map_cmds (store_new c (client_entry now t (b0 :: a) fo)) t (b0 :: a) fo)).
+    { unfold map_cmds. apply cache_ok_fold.
+      unfold cache_ok, store_new, store. cbn [c_cmdmap]. apply NoDup_keys_filter. exact H. }
+    unfold store_client_session. destruct (lookup c now (f_sid fo)) as [ex|]; [|exact Hn].
+    destruct (is_client_side ex); [exact Hn|]. destruct (same_key (e_key ex) (f_key fo)); [|exact H].
+    unfold map_cmds. apply cache_ok_fold. exact H. }
   assert (Hres : forall c1 e, cache_ok c1 -> cache_ok (fst (resume_session c1 now e p))).
   { intros c1 e H1. unfold resume_session.
     destruct (on_resume p (e_id e)); cbn [fst]; auto using cache_ok_invalidate. }
@@ -805,11 +871,15 @@ Proof.
   - assert (Hfull : find_sess id (c_sessions (fst (full_auth c now t a p))) = None).
     { unfold full_auth. destruct (on_full p) as [fo|] eqn:Ef; [|exact H].
       destruct (f_sid fo) eqn:Es; [exact H|]. destruct a; [exact H|]. cbn [fst].
-      unfold store_client_session. rewrite fold_map_command_sessions.
-      change (c_sessions (store_new c (client_entry now t (b0 :: a) fo)))
-        with (c_sessions (store c (client_entry now t (b0 :: a) fo))).
-      apply absent_store; [|exact H].
-      cbn [client_entry e_id]. apply (Hn t (b0 :: a) cmd p fo); [left; reflexivity|exact Ef]. }
+      assert (Hnew : find_sess id (c_sessions (map_cmds (store_new c (client_entry now t (b0 :: a) fo)) t (b0 :: a) fo)) = None).
+      { unfold map_cmds. rewrite fold_map_command_sessions.
+        change (c_sessions (store_new c (client_entry now t (b0 :: a) fo)))
+          with (c_sessions (store c (client_entry now t (b0 :: a) fo))).
+        apply absent_store; [|exact H].
+        cbn [client_entry e_id]. apply (Hn t (b0 :: a) cmd p fo); [left; reflexivity|exact Ef]. }
+      unfold store_client_session. destruct (lookup c now (f_sid fo)) as [ex|]; [|exact Hnew].
+      destruct (is_client_side ex); [exact Hnew|]. destruct (same_key (e_key ex) (f_key fo)); [|exact H].
+      unfold map_cmds. rewrite fold_map_command_sessions. exact H. }
     unfold client_handshake. destruct a as [|b a']; [exact Hfull|]. destruct cmd as [cm|]; [|exact Hfull].
     destruct (lookup_by_command c now t (b :: a') cm) as [e|] eqn:L; [|exact Hfull].
     destruct (has_usable_key e); [|exact Hfull].
@@ -921,9 +991,14 @@ Proof.
   assert (Hfull : no_orphans (fst (full_auth c now t a p))).
   { unfold full_auth. destruct (on_full p) as [fo|]; [|exact H].
     destruct (f_sid fo) eqn:Es; [exact H|]. destruct a; [exact H|]. cbn [fst].
-    unfold store_client_session. apply no_orphans_fold.
-    - change (f_sid fo) with (e_id (client_entry now t (b0 :: a) fo)). unfold store_new. rewrite find_store_same. discriminate.
-    - apply no_orphans_store_new. exact H. }
+    assert (Hn : no_orphans (map_cmds (store_new c (client_entry now t (b0 :: a) fo)) t (b0 :: a) fo)).
+    { unfold map_cmds. apply no_orphans_fold.
+      - change (f_sid fo) with (e_id (client_entry now t (b0 :: a) fo)). unfold store_new. rewrite find_store_same. discriminate.
+      - apply no_orphans_store_new. exact H. }
+    unfold store_client_session. destruct (lookup c now (f_sid fo)) as [ex|] eqn:L; [|exact Hn].
+    destruct (is_client_side ex); [exact Hn|]. destruct (same_key (e_key ex) (f_key fo)); [|exact H].
+    unfold map_cmds. apply no_orphans_fold; [|exact H].
+    unfold lookup in L. destruct (find_sess (f_sid fo) (c_sessions c)); [discriminate|discriminate]. }
   assert (Hres : forall c1 e, no_orphans c1 -> no_orphans (fst (resume_session c1 now e p))).
   { intros c1 e H1. unfold resume_session.
     destruct (on_resume p (e_id e)); cbn [fst]; auto using no_orphans_invalidate, no_orphans_store. }
